@@ -45,7 +45,7 @@ CHECKS['C07'] = dict(
 CHECKS['C08'] = dict(
    text='Theorems over the Gallina transliteration of Filter.run (nested try/finally as an exception monad) for EVERY script of callback outcomes, policies and loop lengths: '
         'shutdown exactly once iff setup completed, fini / init-stage MQ teardown / stop_logging counts, stop event set last, clean exits never escape, loop outcome laws, '
-        'obey table, exit_after law; an exit announcement read by a publisher is always handed up (C08_announcement_always_handed_up); the model is compared with the real Filter.run (scripted subclass over the in-memory ZeroMQ) on every run.',
+        'obey table, exit_after law; under the policy propagate-all a run announces its exit exactly once iff its init() completed, under none never (C08_exit_announced_once, C08_exit_never_announced_under_none); an exit announcement read by a publisher is always handed up (C08_announcement_always_handed_up); the model is compared with the real Filter.run (scripted subclass over the in-memory ZeroMQ) on every run.',
    note=NOTE_COMMON + 'Whole-pipeline termination is explored, not proved. Callbacks are atomic w.r.t. the stop event.',
    technique='Coq proof (total function over scripts; counting lemmas; induction over the loop) + differential correspondence', ref='§6 C08')
 CHECKS['C18'] = dict(
